@@ -260,7 +260,7 @@ namespace glm
 	{
 		qua<T, Q> r = x.real / length2(x.real);
 
-		qua<T, Q> const rr(r.w * x.real.w, r.x * x.real.x, r.y * x.real.y, r.z * x.real.z);
+		qua<T, Q> const rr(qua<T, Q>::wxyz(r.w * x.real.w, r.x * x.real.x, r.y * x.real.y, r.z * x.real.z));
 		r *= static_cast<T>(2);
 
 		T const xy = r.x * x.real.y;
